@@ -1,7 +1,7 @@
 //! C08 -- JSON data passes through unchanged.
 use crate::checks::c03::{char_dfs, char_shards};
 use crate::engine::{par_sweep, Report, Stats, Tier, Violation};
-use crate::implx::{guarded, var_to_value};
+use crate::implx::{guarded, value_to_var, var_to_value};
 use crate::rlex::json_string_decode;
 use jmespath::{Rcvar, ToJmespath, Variable};
 use serde_json::{json, Value};
@@ -298,6 +298,52 @@ fn check_malformed(st: &mut Stats) {
     }
 }
 
+/// one nesting shape built in memory through every conversion path that takes a value
+pub fn check_nested_in_memory(kind: &str, depth: usize, st: &mut Stats) {
+    let mut want = if kind == "mixed" { Value::Null } else { json!(1) };
+    for i in 0..depth {
+        want = match (kind, i % 2) {
+            ("array", _) | ("mixed", 1) => Value::Array(vec![want]),
+            _ => json!({ "a": want }),
+        };
+    }
+    st.states += 1;
+    st.transitions += 1;
+    st.evaluations += 1;
+    st.validated += 1;
+    let label = format!("{} nested {} levels, built in memory", kind, depth);
+    let r = guarded(|| {
+        let rc = value_to_var(&want);
+        let id = jmespath::compile("@").ok().and_then(|e| e.search(rc.clone()).ok()).map(|v| var_to_value(&v));
+        let id_ref = jmespath::compile("@").ok().and_then(|e| e.search(&want).ok()).map(|v| var_to_value(&v));
+        let first = jmespath::compile("[@][0]").ok().and_then(|e| e.search(want.clone()).ok()).map(|v| var_to_value(&v));
+        let ser = serde_json::to_value(&*rc).ok();
+        let tj = (&want).to_jmespath().ok().map(|v| var_to_value(&v));
+        let tf = Variable::try_from(&want).ok().map(|v| var_to_value(&v));
+        let tfo = Variable::try_from(want.clone()).ok().map(|v| var_to_value(&v));
+        let de = serde_json::from_value::<Variable>(want.clone()).ok().map(|v| var_to_value(&v));
+        let via_deser: Option<Value> = <Value as serde::Deserialize>::deserialize((*rc).clone()).ok();
+        vec![("search(@) of a Variable", id), ("search(@) of a &Value", id_ref), ("search([@][0]) of a Value", first), ("Serialize", ser), ("(&Value).to_jmespath", tj), ("TryFrom<&Value>", tf), ("TryFrom<Value>", tfo), ("Deserialize", de), ("Value::deserialize(Variable)", via_deser)]
+    });
+    match r {
+        Ok(all) => {
+            let mut ok = true;
+            for (name, v) in all {
+                if v.as_ref() != Some(&want) {
+                    st.violate(viol("C08/document", "nesting-ladder", &label, "the document, unchanged".into(), format!("{}: {}", name, v.map_or("rejected".to_string(), |x| crate::engine::trunc(&x.to_string(), 80)))));
+                    ok = false;
+                    break;
+                }
+            }
+            if ok {
+                st.nontrivial += 1;
+                st.outcome("nested document preserved");
+            }
+        }
+        Err(m) => st.violate(viol("C08/panic", "nesting-ladder", &label, "a value".into(), m)),
+    }
+}
+
 pub fn check_document_text(text: &str, want: &Value, st: &mut Stats) {
     st.evaluations += 1;
     st.validated += 1;
@@ -486,6 +532,10 @@ pub fn run(tier: Tier) -> i32 {
                     } else {
                         st.nontrivial += 1;
                         st.outcome("nested document preserved");
+                        // a text the reader accepts goes through every conversion path like any other document
+                        if let Ok(want) = serde_json::from_str::<Value>(&text) {
+                            check_document_text(&text, &want, &mut st);
+                        }
                     }
                 }
                 Ok(Err(e)) => {
@@ -495,6 +545,12 @@ pub fn run(tier: Tier) -> i32 {
                 }
                 Err(m) => st.violate(viol("C08/panic", "nesting-ladder", &crate::engine::trunc(&text, 80), "a value".into(), m)),
             }
+        }
+        // the same shapes built in memory (no JSON text, so no reader limit) through the conversion paths that
+        // take a value: identity search of the library value, Serialize, the three ways in for a serde_json::Value,
+        // Deserialize, and the Variable used as a serde Deserializer
+        for depth in [1usize, 64, 126, 127, 128, 129, 130, 200, 256, 257, 500] {
+            check_nested_in_memory(kind, depth, &mut st);
         }
         if let Some((d, why)) = first_rejected {
             st.violate(viol(&format!("C08/nesting-depth-limit/{}/rejected-from-{}", kind, d), "nesting-ladder", &format!("{} nested {} levels", kind, d), "parses (valid JSON at any nesting depth)".into(), why));
@@ -533,6 +589,12 @@ pub fn replay(case: &Value) -> Option<(String, bool)> {
     let mut st = Stats::default();
     match case["sub"].as_str()? {
         "numerals" => check_numeral(t, &mut st),
+        "nesting-ladder" if t.contains("built in memory") => {
+            let mut it = t.split(' ');
+            let kind = it.next()?.to_string();
+            let d: usize = it.nth(1)?.trim_end_matches(',').parse().ok()?;
+            check_nested_in_memory(&kind, d, &mut st);
+        }
         "nesting-ladder" => {
             // "<kind> nested <d> levels"
             let mut it = t.split(' ');
